@@ -233,6 +233,88 @@ func runControls(p *Program, pd *PropDef, base *Reporter, tier string) []Control
 	for _, c := range prepared {
 		out = append(out, c.res)
 	}
+	if tier == "thorough" {
+		out = append(out, runSweeps(p, pd, base)...)
+	}
+	return out
+}
+
+// runSweeps evaluates the per-instance sweeps of the property's rules in
+// batches of non-overlapping edits (at most one edit per function per batch);
+// an instance missed in a batch is retried alone.
+func runSweeps(p *Program, pd *PropDef, base *Reporter) []ControlResult {
+	want := map[string]bool{}
+	for _, r := range pd.Rules {
+		want[r] = true
+	}
+	var out []ControlResult
+	for _, sw := range sweeps {
+		if !want[sw.Rule] {
+			continue
+		}
+		var pending []*ctlPrepared
+		for _, c := range sw.Gen(p) {
+			cp := &ctlPrepared{def: c, res: ControlResult{Name: c.Name, Rule: c.Rule, Expect: c.Expect}}
+			eds, err := c.Edit(p)
+			if err != nil {
+				cp.res.Status = "unavailable"
+				out = append(out, cp.res)
+				continue
+			}
+			cp.edits = eds
+			pending = append(pending, cp)
+		}
+		total := len(pending)
+		const batchSize = 24
+		var done []*ctlPrepared
+		for len(pending) > 0 {
+			var batch, rest []*ctlPrepared
+			usedFn := map[string]bool{}
+			for _, c := range pending {
+				fnKey := c.def.Name
+				if i := strings.LastIndex(fnKey, " in "); i >= 0 {
+					fnKey = fnKey[i:]
+					if j := strings.LastIndex(fnKey, "#"); j >= 0 {
+						fnKey = fnKey[:j]
+					}
+				}
+				conflict := len(batch) >= batchSize || (c.def.Rule == "L1" && usedFn[fnKey])
+				for _, b := range batch {
+					for _, e1 := range b.edits {
+						for _, e2 := range c.edits {
+							if overlaps(e1, e2) {
+								conflict = true
+							}
+						}
+					}
+				}
+				if conflict {
+					rest = append(rest, c)
+				} else {
+					batch = append(batch, c)
+					usedFn[fnKey] = true
+				}
+			}
+			evalVariant(p, pd.Rules, base, batch)
+			for _, c := range batch {
+				if c.res.Status != "fired" && len(batch) > 1 {
+					c.res.Reported = nil
+					evalVariant(p, pd.Rules, base, []*ctlPrepared{c})
+				}
+			}
+			done = append(done, batch...)
+			pending = rest
+		}
+		fired := 0
+		for _, c := range done {
+			if c.res.Status == "fired" {
+				fired++
+			} else {
+				out = append(out, c.res)
+			}
+		}
+		out = append(out, ControlResult{Name: fmt.Sprintf("sweep summary for %s: %d instances seeded, %d reported", sw.Rule, total, fired), Rule: sw.Rule, Status: "fired"})
+	}
 	return out
 }
 
